@@ -375,6 +375,47 @@ pub fn guard<T>(f: impl FnOnce() -> T) -> Result<T, String> {
     catch_unwind(AssertUnwindSafe(f)).map_err(|p| panic_text(&p))
 }
 
+/// `fmt::Write` sink that fails after `cap` bytes: formatting into it must return Err (or Ok if it
+/// fits) and must leave no trace in later formatting (no shared scratch state).
+pub struct LimitedWriter {
+    pub cap: usize,
+    pub got: String,
+}
+impl std::fmt::Write for LimitedWriter {
+    fn write_str(&mut self, s: &str) -> std::fmt::Result {
+        if self.got.len() + s.len() > self.cap {
+            return Err(std::fmt::Error);
+        }
+        self.got.push_str(s);
+        Ok(())
+    }
+}
+
+/// Display of `t` through failing writers, then again into a String: the final text must equal `expect`.
+pub fn display_survives_failing_writer<T: std::fmt::Display>(t: &T, expect: &str) -> Result<(), String> {
+    use std::fmt::Write;
+    for cap in [0usize, 1, expect.len() / 2, expect.len().saturating_sub(1)] {
+        let mut w = LimitedWriter { cap, got: String::new() };
+        let r = write!(w, "{}", t);
+        if r.is_ok() && w.got != expect {
+            return Err(format!("writing into a {}-byte sink reported success with {:?}", cap, w.got));
+        }
+        if !expect.starts_with(&w.got) {
+            return Err(format!("a {}-byte sink received {:?}, not a prefix of {:?}", cap, w.got, expect));
+        }
+        let again = t.to_string();
+        if again != expect {
+            return Err(format!("after a failed write into a {}-byte sink the next to_string() gives {:?} instead of {:?}", cap, again, expect));
+        }
+    }
+    // width / alignment flags must not change the text beyond padding
+    let padded = format!("{:>1}", t);
+    if padded != expect {
+        return Err(format!("format!(\"{{:>1}}\") gives {:?} instead of {:?}", padded, expect));
+    }
+    Ok(())
+}
+
 pub fn sample_json<T: Serialize>(t: &T) -> Value {
     serde_json::to_value(t).unwrap_or(json!(null))
 }
